@@ -39,7 +39,8 @@ def canon(obj):
     if isinstance(obj, BaseException):
         return {"!exc": type(obj).__name__}
     if isinstance(obj, dict):
-        return {"!dict": [[canon(k), canon(v)] for k, v in obj.items()]}  # keeps insertion order (it is observable)
+        # a mapping: two dicts with the same pairs are equal in Python whatever their insertion order
+        return {"!dict": sorted(([canon(k), canon(v)] for k, v in obj.items()), key=lambda pair: dumps(pair[0]))}
     if isinstance(obj, (list, tuple)):
         return [canon(x) for x in obj]
     if attrs.has(type(obj)):
